@@ -1,7 +1,7 @@
 """C01 - threshold soundness."""
 import random
 
-from ..engines import envelope, inplace, threads
+from ..engines import envelope, inplace, noise, threads
 from ..monitors import boundary, probes
 from ..refs import canonjson, models, openpgp, schema
 
@@ -98,6 +98,8 @@ def run_shard(spec, rec, lib):
     for i in range(spec["count"]):
         case = envelope.gen_case(rng)
         model, out = judge(case, rec, lib)
+        if i % 25 == 7:
+            noise.tick(lib, rng, spec.get("scratch"))
         if out.accepted and i % 2 == 0:
             # related neighbour, run adjacently in the same process: the very same signature
             # entries (which the library has just verified successfully) on another payload
